@@ -7,7 +7,7 @@ import pipelib
 
 MANIFEST = {
  "category": "proof",
- "text": "Mro/Typing.v is an executable Coq model of the binding type rules of the MRO compiler (IsValidExpression of every type, RefExp.resolveType incl. fieldType projection through arrays and typed maps and the dimension a mapped call adds, IsAssignableFrom = C17's assignable on the type trees TypeLookup.Get builds, BindStms.compile incl. wildcard expansion and missing/unknown/duplicate parameters, checkMappings with the mode and known length of every split source, the phases of Ast.compile) that returns accept or the set of located errors (pipeline, call / return, parameter). Coq theorems (Properties/C07.v, all closed): C07_literal_sound - for ALL programs, types and reference-free expressions (no bound on nesting), an expression the checker accepts at a parameter type evaluates to a JSON value that IsValidJson accepts cleanly (int->float, string->file types, integral float->int, struct / typed-map / array literals of any depth); C07_split_elements_sound - the same for every element of a split literal; C07_ref_coercion_sound_partial - an accepted reference's resolved type is assignable to the parameter type, hence (C17's filter theorem) a conforming source value is delivered by FilterJson without a fatal error as a conforming value (guards: no struct->typed-map coercion, file-name rule of directory-map keys left out, closure of the type universe as a hypothesis; conformance of projected values to fieldType's result not proved); the rejection theorems, each for ALL calls in ALL contexts: C07_reject_unknown_param, C07_reject_illtyped_binding, C07_reject_duplicate_binding (located at the binding), C07_reject_missing_param (located at the call), lifted to the whole program by C07_reject_located; and the expression rules that make a mutated binding ill-typed: C07_reject_map_for_array / array_for_map (array versus map), C07_reject_array_for_scalar / scalar_for_array / C07_array_literal_elementwise (array depth), C07_builtin_literal_table + the four *_literal_only_for tables (wrong base type), C07_reject_struct_missing_field / extra_field, C07_reject_unresolved_ref with C07_no_such_call / no_such_output / no_such_field, C07_split_array_vs_map / length_mismatch / keys_mismatch / C07_reject_inconsistent_split_located / C07_reject_split_scalar. Tie on every run: generated programs over the full type language and every class of single-point ill-typed mutation are compiled by martian's own compiler and checked by the extracted model on the Ast dumped from martian's parser; verdict and the set of error locations must be equal (a kernel vm_compute sample as well); the property is read directly on the implementation (guaranteed-ill-typed mutations rejected with an error located in the mutated binding / call; accepted programs resolve to a call graph without error or panic); and accepted programs are run by the real mrp with --strict=error with stages emitting conforming outputs: no failure, no alarm, every delivered argument record validates against the declared input types.",
+ "text": "Mro/Typing.v is an executable Coq model of the binding type rules of the MRO compiler (IsValidExpression of every type, RefExp.resolveType incl. fieldType projection through arrays and typed maps and the dimension a mapped call adds, IsAssignableFrom = C17's assignable on the type trees TypeLookup.Get builds, BindStms.compile incl. wildcard expansion and missing/unknown/duplicate parameters, checkMappings with the mode and known length of every split source, the phases of Ast.compile) that returns accept or the set of located errors (pipeline, call / return, parameter). Coq theorems (Properties/C07.v, all closed): C07_literal_sound - for ALL programs, types and reference-free expressions (no bound on nesting), an expression the checker accepts at a parameter type evaluates to a JSON value that IsValidJson accepts cleanly (int->float, string->file types, integral float->int, struct / typed-map / array literals of any depth); C07_split_elements_sound - the same for every element of a split literal; C07_ref_coercion_sound_partial - an accepted reference's resolved type is assignable to the parameter type, hence (C17's filter theorem) a conforming source value is delivered by FilterJson without a fatal error as a conforming value (guards: no struct->typed-map coercion, file-name rule of directory-map keys left out, closure of the type universe as a hypothesis; conformance of projected values to fieldType's result not proved); the rejection theorems, each for ALL calls in ALL contexts: C07_accepted_ref_same_dims / C07_assignable_same_dims (an accepted reference never differs from the parameter in an array depth, outer or of a typed map's values, nor trades array for typed map; away from the untyped map), C07_reject_unknown_param, C07_reject_illtyped_binding, C07_reject_duplicate_binding (located at the binding), C07_reject_missing_param (located at the call), lifted to the whole program by C07_reject_located; and the expression rules that make a mutated binding ill-typed: C07_reject_map_for_array / array_for_map (array versus map), C07_reject_array_for_scalar / scalar_for_array / C07_array_literal_elementwise (array depth), C07_builtin_literal_table + the four *_literal_only_for tables (wrong base type), C07_reject_struct_missing_field / extra_field, C07_reject_unresolved_ref with C07_no_such_call / no_such_output / no_such_field, C07_split_array_vs_map / length_mismatch / keys_mismatch / C07_reject_inconsistent_split_located / C07_reject_split_scalar. Tie on every run: generated programs over the full type language and every class of single-point ill-typed mutation are compiled by martian's own compiler and checked by the extracted model on the Ast dumped from martian's parser; verdict and the set of error locations must be equal (a kernel vm_compute sample as well); the property is read directly on the implementation (guaranteed-ill-typed mutations rejected with an error located in the mutated binding / call; accepted programs resolve to a call graph without error or panic); and accepted programs are run by the real mrp with --strict=error with stages emitting conforming outputs: no failure, no alarm, every delivered argument record validates against the declared input types.",
  "note": "Trusted: Coq kernel; extraction cross-checked in-kernel on a sample; astdump (walks exported fields of the parser-built syntax.Ast); hook VerifErrorLines (error tree -> source lines); the line -> (pipeline, call, parameter) table built from the parsed Ast. Model scope (anything else is reported as unsupported and counted): programs whose declarations are well formed, calls already in dependency order, no preflight/retain, no map call that adds a known length to a length-unknown mapping shared with another call (one MapCallSet object in the implementation). The static resolver (resolve_*.go) is not modelled: it is exercised (MakeCallGraph on every accepted program, real mrp runs). Inconsistent collection sizes between a top-level call's literals and the split arguments inside the called pipeline are found when the call graph is resolved (before anything runs), not by Ast.compile; the oracle accepts that as a located static rejection.",
  "technique": "Coq proof (structural induction on expressions nested with induction on type dimensions; C17's filter/validate theorems for the coercions) + differential correspondence on parser-dumped Asts + mutation-catalogue oracle + real mrp runs",
 }
